@@ -200,8 +200,8 @@ def run_history(case):
         want, want_exc = model.ev(e), None
       except Missing:
         want, want_exc = None, 'missing'
-      except ValueError as ex:
-        want, want_exc = None, ('ValueError', str(ex))
+      except (ValueError, KeyError) as ex:
+        want, want_exc = None, (type(ex).__name__, str(ex))
       delta = model.calls - before
       targets.CALLS.clear()
       targets.CALLS.update(saved)
@@ -213,8 +213,8 @@ def run_history(case):
         got, got_exc = lf.maybe_make(lazy), None
       except lf.LazyObjectMissingError:
         got, got_exc = None, 'missing'
-      except ValueError as ex:
-        got, got_exc = None, ('ValueError', str(ex))
+      except (ValueError, KeyError) as ex:
+        got, got_exc = None, (type(ex).__name__, str(ex))
       except Exception as ex:  # pylint: disable=broad-exception-caught
         raise crash(ex, w) from ex
       check(got_exc == want_exc, 'exception-differs-from-eager', f'{w}: lazy raised {got_exc!r}, eager model {want_exc!r}')
@@ -319,7 +319,8 @@ def _inst(depth):
 
 
 def _raising():
-  return st.sampled_from(['boom', 'x y', '']).map(lambda m: {'k': 'call', 'fn': 'raise_value_error', 'args': [{'c': m}]})
+  return st.builds(lambda m, f: {'k': 'call', 'fn': f, 'args': [{'c': m}]}, st.sampled_from(['boom', 'x y', '']),
+                   st.sampled_from(['raise_value_error', 'raise_value_error', 'raise_key_error']))
 
 
 def strat_history(tier):
